@@ -216,6 +216,9 @@ impl<T> SocksRequest<T> {
         socket.write_u8(self.version).await.context("version")?;
         socket.write_u8(self.cmd).await.context("version")?;
         socket.write_u8(0).await.context("write")?;
+        if self.target.has_zone() {
+            bail!("an address with a zone can not be sent in socks5: {}", self.target);
+        }
         let (t, addr, port) = match &self.target {
             TargetAddress::DomainPort(domain, port) => {
                 if domain.len() > 255 {
@@ -685,6 +688,12 @@ pub mod frames {
         Ok(frame)
     }
     pub fn encode_socks_frame(frame: Frame) -> IoResult<Bytes> {
+        if frame.addr.as_ref().map(|a| a.has_zone()).unwrap_or(false) {
+            return Err(IoError::new(
+                std::io::ErrorKind::InvalidInput,
+                "an address with a zone can not be sent in a socks udp header",
+            ));
+        }
         let mut body = BytesMut::with_capacity(65536);
         body.put_u8(SOCKS_VER_5);
         body.put_u8(SOCKS_CMD_UDP_ASSOCIATE);
